@@ -4,10 +4,10 @@ import re
 import sys
 
 
-def theorems(path, only=None):
+def theorems(path, only=None, indent="  "):
     text = open(path).read()
     out = []
-    for m in re.finditer(r"^  Theorem\s+(\w+)(.*?)\n  Proof\.", text, flags=re.S | re.M):
+    for m in re.finditer(r"^%sTheorem\s+(\w+)(.*?)\n%sProof\." % (indent, indent), text, flags=re.S | re.M):
         name, rest = m.group(1), m.group(2)
         if only and name not in only:
             continue
@@ -35,10 +35,19 @@ def theorems(path, only=None):
 
 def main():
     pid, header = sys.argv[1], open(sys.argv[2]).read()
-    body, prints = [], []
+    body, prints, top = [], [], []
     for spec in sys.argv[3:]:
+        is_top = spec.startswith("top:")          # theorems stated outside any section: emitted after End
+        if is_top:
+            spec = spec[4:]
         path, _, only = spec.partition(":")
         only = set(only.split(",")) if only else None
+        if is_top:
+            for name, binders, stmt, names in theorems(path, only, indent=""):
+                tn = "%s_%s" % (pid, name)
+                top.append("Theorem %s %s :%s.\nProof. exact (%s). Qed.\n" % (tn, binders, stmt, " ".join([name] + names)))
+                prints.append("Print Assumptions %s." % tn)
+            continue
         for name, binders, stmt, names in theorems(path, only):
             tn = "%s_%s" % (pid, name)
             body.append("  Theorem %s %s :%s.\n  Proof. exact (%s). Qed.\n"
@@ -47,6 +56,7 @@ def main():
     print(header)
     print("\n".join(body))
     print("End %s.\n" % pid)
+    print("\n".join(top))
     print("\n".join(prints))
 
 
